@@ -373,6 +373,7 @@ func main() {
 	}{
 		{"gzip", genGzip, pick(96, 480), pick(10, 36), pick(24, 64), false},
 		{"gzip", genGzipRaw, pick(64, 320), 0, 0, true}, // hand-rolled writer: every FLG value 0..31 at least twice
+		{"gzip", genGzipLong, pick(16, 48), 0, 0, true},  // name / comment of 1 … 65535 bytes (both present: FLG 0x18)
 		{"tar", genTar, pick(72, 360), pick(2, 6), pick(16, 128), false},
 		{"zip", genZip, pick(72, 360), pick(2, 6), pick(8, 32), false},
 		{"png", genPng, pick(120, 480), pick(8, 20), pick(24, 128), false},
